@@ -93,6 +93,7 @@ def _do_fit(trainer, kind, y, init):
 def _behaviour(case):
     recs = [dict(kind='reset', trid=0)]
     trainers = {}
+    bufs = {}           # block-online use: every trainer is fed from ONE observation buffer per shape, refilled in place
     for op in case['hist']:
         if op['op'] == 'new':
             t, exc = call(_mk_trainer, op['kind'], op['dim'], op['maxc'])
@@ -101,6 +102,12 @@ def _behaviour(case):
         else:
             t, kind, maxc = trainers[op['id']]
             y, init = _fit_args(kind, op['D'], op['data'])
+            bk = (op['id'], y.shape, str(y.dtype))
+            if bk in bufs:
+                bufs[bk][...] = y
+                y = bufs[bk]
+            else:
+                bufs[bk] = y
             model, exc = call(_do_fit, t, kind, y, init)
             fresh, e2 = call(_do_fit, _mk_trainer(kind, 0, maxc), kind, y, init)
             dim_after = getattr(t, 'dimension', 0) or 0
@@ -190,6 +197,11 @@ def registry():
     reg('output_sxr', lambda r: [r.normal(size=(2, 3, 40)), r.normal(size=(3, 40))], lambda a, b: tuple(sxr_module.output_sxr(a, b)))
     reg('get_snr', lambda r: [r.normal(size=(3, 40)), r.normal(size=(3, 40))], lambda a, b: sxr_module.get_snr(a, b))
     reg('set_snr_copy', lambda r: [r.normal(size=(3, 40)), r.normal(size=(3, 40))], lambda a, b: sxr_module.set_snr(a, b, 10.0, inplace=False))
+    # the current SNR handed over as an array (0-d, or one value per channel as get_snr(..., keepdims=True) returns it)
+    reg('set_snr_current0', lambda r: [r.normal(size=(3, 40)), r.normal(size=(3, 40)), np.array(3.5)],
+        lambda a, b, c: sxr_module.set_snr(a, b, 10.0, current_snr=c, inplace=False))
+    reg('set_snr_current1', lambda r: [r.normal(size=(3, 40)), r.normal(size=(3, 40)), r.normal(size=(3, 1))],
+        lambda a, b, c: sxr_module.set_snr(a, b, 10.0, current_snr=c, inplace=False))
     # mixture models and distributions
     reg('log_pdf_to_affiliation', lambda r: [_aff(r, K, 1), r.normal(size=(K, T))], lambda w, lp: mmu.log_pdf_to_affiliation(w, lp))
     reg('estimate_mixture_weight', lambda r: [_aff(r, F, K, T), r.random((F, T))], lambda a, s: mmu.estimate_mixture_weight(a, s))
